@@ -40,6 +40,7 @@ var c16Nums = []string{"0", "-0", "1", "-1", "2", "0.4", "0.5", "0.6", "1.5", "2
 	"1e18", "1e19", "1e308", "-1e308", "5e-324", "1e-7", "123456789012345678901234567890", "1e400", "-1e400", "1e-400"}
 
 var c16Other = []string{`null`, `true`, `false`, `""`, `"abc"`, `"true"`, `"false"`, `"t"`, `"F"`, `"yes"`, `"NO"`, `"on"`, `"off"`, `"1"`, `"0"`, `" 1"`, `"1 "`, `"+1"`, `"1e2"`, `"0x10"`, `"NaN"`, `"Infinity"`, `"-inf"`, `"1_0"`, `"tr"`, `"o"`, `"tree"`, `"truE"`, `"trux"`, `"falsy"`, `"fall"`, `"yess"`, `"nope"`, `"nn"`, `"onn"`, `"offf"`, `"11"`, `"00"`, `"01"`, `"2"`, `"-1"`, `"truee"`, `"ye s"`, `"ok"`,
+	`[[1,2]]`, `[[[1]]]`, `[[]]`, `[1,[2]]`, `[["3"]]`, `[[true]]`,
 	`"010"`, `"-010"`, `"0000000100"`, `"08"`, `"-009"`, `"02147483647"`, `"02147483648"`, `"00.50"`, `"007.5"`, `"0e0"`, `"00"`, `"-0"`, `"09223372036854775807"`, `"0o17"`, `"0b11"`, `"1_000"`,
 	`[]`, `[1]`, `[1,"2",[3]]`, `{}`, `{"a":1}`, `"2023-08-15"`, `"12:34:56"`, `"2023-08-15T12:34:56+01:00"`}
 
